@@ -11,6 +11,8 @@ package c20
 // order is exact.
 
 import (
+	"time"
+
 	"github.com/uber/kraken/core"
 	"github.com/uber/kraken/lib/torrent/scheduler/announcequeue"
 
@@ -50,19 +52,43 @@ func invivo(s *simrt.Sim, tier string) {
 					s.InfraError("decoration point announcequeue.New yields %T", v)
 					return v
 				}
-				w := &world{s: s, q: q, m: &model{inflight: map[int]bool{}}, idx: map[core.InfoHash]int{}}
+				w := &world{s: s, q: q, m: &model{inflight: map[int]bool{}}, idx: map[core.InfoHash]int{}, node: simrt.CurNode(), handedAt: map[int]time.Duration{}}
 				queues = append(queues, w)
 				return announcequeue.Queue(&monQueue{w})
 			})
 		},
 		End: func(sw *scenario.World) {
+			// "Removal takes it out completely", seen from the scheduler: a
+			// torrent whose announce was handed out comes back through Ready or
+			// leaves through Eject once the announce round trip (client timeout
+			// 10s) or the removal is over. After a quiet period far longer than
+			// that, an entry still in flight on a live scheduler belongs to a
+			// torrent that can never announce again and that Add can no longer
+			// queue.
+			const quiet, stuck = 240 * time.Second, 180 * time.Second
+			simrt.Sleep(quiet)
+			last := map[*simrt.Node]*world{}
+			for _, w := range queues {
+				last[w.node] = w // the scheduler a node runs now owns the queue created last
+			}
+			for _, w := range queues {
+				if last[w.node] != w || w.node == nil || w.node.Dead || sw.Stopped[w.node.Name] || sw.Reloading[w.node.Name] {
+					continue
+				}
+				for h, at := range w.handedAt {
+					if w.m.inflight[h] && s.Now()-at > stuck {
+						s.Fail("in_flight_forever", "%s: torrent h%d was handed out for an announce at %v and neither Ready nor Eject followed in %v of fake time on a live scheduler: it holds its slot for good (a later Add is ignored, it never announces again); queue history:%s", w.node.Name, h, at, s.Now()-at, w.tail())
+					}
+				}
+				s.Probe("invivo_queue_checked_at_end")
+			}
 			ops := 0
 			for _, w := range queues {
 				ops += w.ops
 			}
-			if len(queues) == 0 || ops == 0 {
+			if len(queues) == 0 {
 				// the call site moved: this observation is blind, say so loudly
-				s.InfraError("in-vivo run observed no announce queue operation (queues=%d): decoration point not reached", len(queues))
+				s.InfraError("in-vivo run saw no announce queue being created: decoration point not reached")
 			}
 			for i := 0; i < ops; i += 16 {
 				s.Probe("queue_ops_in_scheduler_x16")
